@@ -3,7 +3,7 @@
 # usage: tools/seed_matrix.sh <out file> [seed dir names...]
 cd "$(dirname "$0")/.."
 OUT=${1:-/var/tmp/seedtry/matrix.txt}; shift
-[ $# -eq 0 ] && set -- $(ls seeded)
+[ $# -eq 0 ] && set -- $(ls seeded | grep -E "^C[0-9]+-[0-9]+$")
 : > $OUT
 for T in "$@"; do
   P=${T%-*}
